@@ -213,11 +213,7 @@ theorem exportFnImports_sound (k : Key) (f : Fn) :
     · simp at hd
   · exact mem_importsOfExportedFn_fs (by simpa [opt] using fs_sound k f true i (by simpa using hi))
 
-/-- the side condition under which C's destructor export is right: `to_snake_case` leaves the
-resource name alone -/
-def okRes (_ : Key) (r : String) : Prop := snake r = r
-
-theorem sound : emit.SoundOn asyncOk okRes where
+theorem sound : emit.SoundOn asyncOk (fun _ _ => True) where
   importFn := importFn_sound
   exportFnImports := fun k f _ => exportFnImports_sound k f
   exportFn := exportFn_sound
@@ -233,21 +229,19 @@ theorem sound : emit.SoundOn asyncOk okRes where
     apply exported_intrinsics_mem hm
     rcases hd with rfl | rfl | rfl <;> simp [must]
   exportRes := by
-    intro k r hk hr x hx
+    intro k r hk _ x hx
     obtain ⟨m, hm⟩ := worldKey_of_ne_root hk
     simp only [emit, exportRes, hm, List.mem_cons, List.not_mem_nil, or_false] at hx
     subst hx
-    have : dtorExport m r = ⟨m ++ "#[dtor]" ++ r, [.i32], []⟩ := by
-      unfold dtorExport; rw [hr]
-    rw [this]; exact dtor_mem hm r
+    exact dtor_mem hm r
   worldImports := by
-    intro d hd
+    intro _ _ d hd
     simp only [emit, List.mem_map] at hd
     obtain ⟨i, hi, rfl⟩ := hd
     simp only [opt]
     revert i; decide
   worldExports := by
-    intro x hx
+    intro _ _ x hx
     simp only [emit, List.mem_cons, List.not_mem_nil, or_false] at hx
     simp [hx]
 
@@ -374,8 +368,8 @@ theorem sound : emit.SoundOn asyncOk (fun _ _ => True) where
     simp only [emit, exportRes, rootOr_of_worldKey hm, List.mem_cons, List.not_mem_nil, or_false] at hx
     subst hx
     exact dtor_mem hm r
-  worldImports := by intro d hd; simp [emit] at hd
-  worldExports := by intro x hx; simp [emit] at hx
+  worldImports := by intro _ _ d hd; simp [emit] at hd
+  worldExports := by intro _ _ x hx; simp [emit] at hx
 
 theorem complete (k : Key) (f : Fn) : ∀ x ∈ Spec.requiredOfFn k f, x ∈ exportFn k f := by
   intro x hx
@@ -515,8 +509,8 @@ theorem sound : emit.SoundOn asyncOk (fun _ _ => True) where
     simp only [emit, exportRes, hm, norm_ptr, List.mem_cons, List.not_mem_nil, or_false] at hx
     subst hx
     exact dtor_mem hm r
-  worldImports := by intro d hd; simp [emit] at hd
-  worldExports := by intro x hx; simp [emit] at hx
+  worldImports := by intro _ _ d hd; simp [emit] at hd
+  worldExports := by intro _ _ x hx; simp [emit] at hx
 
 theorem complete (k : Key) (f : Fn) : ∀ x ∈ Spec.requiredOfFn k f, x ∈ exportFn k f := by
   intro x hx
@@ -589,9 +583,9 @@ theorem sound : emit.SoundOn (fun _ _ => True) (fun _ _ => True) where
     simp only [emit, exportRes, rootOr_of_worldKey hm, List.mem_cons, List.not_mem_nil, or_false] at hx
     subst hx
     exact dtor_mem hm r
-  worldImports := by intro d hd; simp [emit] at hd
+  worldImports := by intro _ _ d hd; simp [emit] at hd
   worldExports := by
-    intro x hx
+    intro _ _ x hx
     simp only [emit, List.mem_cons, List.not_mem_nil, or_false] at hx
     simp [hx]
 
@@ -653,9 +647,14 @@ theorem sound : emit.SoundOn okFn (fun _ _ => True) where
   exportFn := exportFn_sound
   importRes := by
     intro k r d hd
-    simp only [emit, importRes, importModule, List.mem_cons, List.not_mem_nil, or_false] at hd
-    subst hd
-    simp [must, spec_importedDrop]
+    cases k with
+    | root => simp [emit, importRes] at hd
+    | name s =>
+      simp only [emit, importRes, importModule, List.mem_cons, List.not_mem_nil, or_false] at hd
+      subst hd; simp [must, spec_importedDrop]
+    | id i =>
+      simp only [emit, importRes, importModule, List.mem_cons, List.not_mem_nil, or_false] at hd
+      subst hd; simp [must, spec_importedDrop]
   exportResImports := by
     intro k r hk d hd
     obtain ⟨m, hm⟩ := worldKey_of_ne_root hk
@@ -671,9 +670,9 @@ theorem sound : emit.SoundOn okFn (fun _ _ => True) where
     have : (⟨m ++ "#" ++ "[dtor]" ++ r, [.i32], []⟩ : Exp) = ⟨m ++ "#[dtor]" ++ r, [.i32], []⟩ := by
       apply exp_eq <;> simp; str_eq
     rw [this]; exact dtor_mem hm r
-  worldImports := by intro d hd; simp [emit] at hd
+  worldImports := by intro _ _ d hd; simp [emit] at hd
   worldExports := by
-    intro x hx
+    intro _ _ x hx
     simp only [emit, List.mem_cons, List.not_mem_nil, or_false] at hx
     simp [hx]
 
@@ -792,7 +791,7 @@ theorem sound : emit.SoundOn okFn (fun _ _ => True) where
     simp only [emit, exportRes] at hx
     exact List.mem_append_left _ (List.mem_append_left _ hx)
   worldImports := by
-    intro d hd
+    intro _ _ d hd
     simp only [emit, List.mem_map, List.mem_append] at hd
     obtain ⟨i, hi, rfl⟩ := hd
     simp only [opt, Spec.rootBuiltins, List.mem_append]
@@ -800,7 +799,7 @@ theorem sound : emit.SoundOn okFn (fun _ _ => True) where
     · left; revert i; decide
     · right; exact hi
   worldExports := by
-    intro x hx
+    intro _ _ x hx
     simp only [emit, List.mem_cons, List.not_mem_nil, or_false] at hx
     simp [hx]
 
@@ -875,7 +874,10 @@ theorem exportFn_sound (k : Key) (f : Fn) (hok : okFn k f) :
     · exact mem_exportsOfFn_acb_normal ha hm
     · exact mem_exportsOfFn_acb_cb ha (callbackExport_eq k f hs)
 
-theorem sound : emit.SoundOn okFn (fun _ _ => True) where
+/-- side condition on the world: its own resource types are not given exported-resource glue -/
+def okWorld (w : World) : Prop := hasWorldExportFunc w = false ∨ worldResources w = []
+
+theorem sound : emit.SoundOn okFn (fun _ _ => True) okWorld where
   importFn := by
     intro k f hok d hd
     simp only [emit, importFn, List.mem_cons, List.not_mem_nil, or_false] at hd
@@ -913,8 +915,14 @@ theorem sound : emit.SoundOn okFn (fun _ _ => True) where
     have : (⟨m ++ "#" ++ "[dtor]" ++ r, [.i32], []⟩ : Exp) = ⟨m ++ "#[dtor]" ++ r, [.i32], []⟩ := by
       apply exp_eq <;> simp; str_eq
     rw [this]; exact dtor_mem hm r
-  worldImports := by intro d hd; simp [emit] at hd
-  worldExports := by intro x hx; simp [emit] at hx
+  worldImports := by
+    intro w hw d hd
+    simp only [emit, worldImports] at hd
+    rcases hw with h | h <;> simp [h] at hd
+  worldExports := by
+    intro w hw x hx
+    simp only [emit, worldExports] at hx
+    rcases hw with h | h <;> simp [h] at hx
 
 theorem complete (k : Key) (f : Fn) : ∀ x ∈ Spec.requiredOfFn k f, x ∈ exportFn k f := by
   intro x hx
@@ -1001,34 +1009,5 @@ theorem Go.fs_names (k : Key) (f : Fn) (exported : Bool) :
   simp only [Bool.not_not] at this
   exact C.fs_names k f exported d this
 
-/-! ### `to_snake_case` on single-word lower-case names (C's destructor) -/
-
-open Witverif.Text.Heck in
-theorem simpleTail_lod (s : List Char) (h : ∀ c ∈ s, lod c = true) : simpleTail false s = true := by
-  induction s with
-  | nil => rfl
-  | cons c cs ih =>
-    have hc := h c (by simp)
-    simp [simpleTail, lod_alnum hc, hc, ih (fun x hx => h x (by simp [hx]))]
-
-open Witverif.Text.Heck in
-theorem snake_lod (s : List Char) (h : ∀ c ∈ s, lod c = true) (hne : s ≠ []) : snake s = s := by
-  have hs : simpleTail true s = true := by
-    cases s with
-    | nil => exact absurd rfl hne
-    | cons c cs =>
-      have hc := h c (by simp)
-      simp [simpleTail, lod_alnum hc, hc, simpleTail_lod cs (fun x hx => h x (by simp [hx]))]
-  rw [snake_simple s hs]
-  have : ∀ c ∈ s, sepU c = c := fun c hc => by simp [sepU, lod_alnum (h c hc)]
-  exact (List.map_congr_left this).trans (List.map_id s)
-
-open Witverif.Text.Heck in
-/-- a resource name made of lower-case ASCII letters and digits only (one word) is left alone -/
-theorem C.snake_single_word (r : String) (h : ∀ c ∈ r.toList, lod c = true) (hne : r ≠ "") :
-    C.snake r = r := by
-  unfold C.snake
-  rw [snake_lod r.toList h (by intro h0; apply hne; apply String.toList_inj.mp; simpa using h0)]
-  simp
 
 end Witverif.Abi.Names
